@@ -102,7 +102,8 @@ def rtNext (bs : Bytes) : Nat → RtIt → Outcome RtNext
           (none, it.inRadiotapNs)
         else
           let a := rtAlign it.argIndex
-          if a = 0 then (none, false) else (some (a, rtSize it.argIndex), false)
+          -- an undefined field of the radiotap namespace has no known size: the iteration ends (-ENOENT)
+          if a = 0 then (none, true) else (some (a, rtSize it.argIndex), false)
       if r.2 then .ok (.stop (-ENOENT))
       else match r.1 with
       | none =>
